@@ -2,6 +2,8 @@ package checks
 
 import (
 	"fmt"
+	"sync"
+	"sync/atomic"
 	"testing"
 
 	"sigs.k8s.io/controller-runtime/pkg/client"
@@ -77,11 +79,17 @@ func ev(k, a string) w.Event             { return w.Event{K: k, A: a} }
 func evb(k, a, b string) w.Event         { return w.Event{K: k, A: a, B: b} }
 
 // runWorld explores the scenarios with the monitors; stops at the first scenario with an unlisted violation.
-func runWorld(t *testing.T, run *h.Run, scs []scOpt, mons []func(*w.MonCtx), maxStates int) {
+func runWorld(t *testing.T, run *h.Run, scs []scOpt, mons []func(*w.MonCtx), maxStates int, visit ...func(sc *w.Scenario, s *w.State, depth int)) {
 	for _, o := range scs {
 		o.mons = mons
 		sc := mkScenario(t, o)
-		explore(t, run, sc, maxStates)
+		ex := &w.Explorer{T: t, Run: run, Sc: sc, MaxStates: maxStates}
+		if len(visit) > 0 {
+			ex.Visit = func(s *w.State, d int) { visit[0](sc, s, d) }
+		}
+		ex.Explore()
+		fmt.Printf("  %-28s states=%-7d transitions=%-8d depth=%-3d capped=%v\n", sc.Name, ex.States, ex.Transitions, ex.Depth, ex.Capped)
+		run.Nontrivial("scenario:" + sc.Name)
 		if run.HasUnknownViolation() {
 			break
 		}
@@ -97,4 +105,24 @@ func requireAntecedents(run *h.Run, names ...string) {
 			exit(2)
 		}
 	}
+}
+
+// parallel runs f(0..n-1) on 16 workers.
+func parallel(n int, f func(i int)) {
+	var wg sync.WaitGroup
+	var idx int64 = -1
+	for w := 0; w < 16; w++ {
+		wg.Add(1)
+		go func() {
+			defer wg.Done()
+			for {
+				i := int(atomic.AddInt64(&idx, 1))
+				if i >= n {
+					return
+				}
+				f(i)
+			}
+		}()
+	}
+	wg.Wait()
 }
